@@ -24,6 +24,11 @@ func concBody(producers [][]int, limit int, withIdle, withWatch, slowJobs bool) 
 
 // concBodyInit: the first ninit jobs of producer 0 are passed to the constructor as initial elements.
 func concBodyInit(producers [][]int, limit int, withIdle, withWatch, slowJobs bool, ninit int) func() {
+	return concBodyOpt(producers, limit, withIdle, withWatch, slowJobs, ninit, false)
+}
+
+// concBodyOpt: concIdleErrCh = the WaitIdle caller may pass an error channel.
+func concBodyOpt(producers [][]int, limit int, withIdle, withWatch, slowJobs bool, ninit int, concIdleErrCh bool) func() {
 	return func() {
 		bg := context.Background()
 		var q *conc.ConcurrentQueue
@@ -105,6 +110,13 @@ func concBodyInit(producers [][]int, limit int, withIdle, withWatch, slowJobs bo
 			})
 		}
 		if withIdle {
+			// the caller's optional error channel: nil, or one on which a nil error arrives (which is
+			// not an error: WaitIdle keeps waiting)
+			var errCh chan error
+			if concIdleErrCh && vsched.Choose(2) == 1 {
+				errCh = make(chan error, 1)
+				T("X", func() { errCh <- nil })
+			}
 			T("I", func() {
 				var before []int
 				for j := 0; j < njobs; j++ {
@@ -113,7 +125,7 @@ func concBodyInit(producers [][]int, limit int, withIdle, withWatch, slowJobs bo
 					}
 				}
 				label("WaitIdle")
-				err := q.WaitIdle(bg, nil)
+				err := q.WaitIdle(bg, errCh)
 				label("")
 				if err != nil {
 					fail("C18.waitidle-error", "WaitIdle(bg,nil) returned %v", err)
@@ -174,6 +186,7 @@ func init() {
 	}
 	reg("conc-l1-idle", "ConcurrentQueue limit 1: one producer, 3 jobs in every batch split, a WaitIdle caller", 2, 3, concBody([][]int{{0, 1, 2}}, 1, true, false, true))
 	reg("conc-l2-idle", "ConcurrentQueue limit 2: one producer, 3 jobs in every batch split, a WaitIdle caller", 2, 3, concBody([][]int{{0, 1, 2}}, 2, true, false, true))
+	reg("conc-l1-idle-errch", "ConcurrentQueue limit 1: one producer, 2 slow jobs in every batch split, a WaitIdle caller whose error channel receives a nil error (or has no error channel)", 2, 3, concBodyOpt([][]int{{0, 1}}, 1, true, false, true, 0, true))
 	reg("conc-l0-idle", "ConcurrentQueue unlimited: one producer, 3 jobs in every batch split, a WaitIdle caller", 1, 2, concBody([][]int{{0, 1, 2}}, 0, true, false, true))
 	reg("conc-l1-watch", "ConcurrentQueue limit 1: one producer, 3 instantaneous jobs in every batch split, a WatchState watcher", 2, 3, concBody([][]int{{0, 1, 2}}, 1, false, true, false))
 	reg("conc-l2-watch", "ConcurrentQueue limit 2: one producer, 3 jobs, a WatchState watcher", 1, 2, concBody([][]int{{0, 1, 2}}, 2, false, true, true))
